@@ -8,12 +8,33 @@ from corankco.algorithms.bioconsert.bioconsert import BioConsert
 from corankco.algorithms.kwiksort.kwiksortrandom import KwikSortRandom
 from corankco.consensus import ConsensusFeature
 
+import corankco.algorithms.parcons.parcons as parcons_module
+from corankco.algorithms.rank_aggregation_algorithm import RankAggAlgorithm
+
 MAXOPT = {"quick": 6, "thorough": 7}
+
+
+class Recorder(RankAggAlgorithm):
+    """wraps a sub-solver of ParCons and records every call: the sub-problem it received and what it returned"""
+
+    def __init__(self, inner, is_aux, log):
+        self.inner, self.is_aux, self.log = inner, is_aux, log
+
+    def compute_consensus_rankings(self, dataset, scoring_scheme, return_at_most_one_ranking=True, bench_mode=False):
+        res = self.inner.compute_consensus_rankings(dataset, scoring_scheme, return_at_most_one_ranking, bench_mode)
+        self.log.append({"aux": self.is_aux, "D": [lst(r) for r in dataset.rankings], "res": lst(res.consensus_rankings[0])})
+        return res
+
+    def get_full_name(self):
+        return self.inner.get_full_name()
+
+    def is_scoring_scheme_relevant_when_incomplete_rankings(self, scoring_scheme):
+        return self.inner.is_scoring_scheme_relevant_when_incomplete_rankings(scoring_scheme)
 
 
 class ParConsSuite(Suite):
     name = "parcons"
-    imports = ["Scheme", "Rank", "Partition", "Judge.JOpt"]
+    imports = ["Scheme", "Rank", "Partition", "ParConsProof", "Judge.JOpt"]
     judge = "judge_parcons"
     show = "show_parcons"
 
@@ -42,13 +63,19 @@ class ParConsSuite(Suite):
         out = {"D": gen.observe(ds), "U": gen.id_order(ds), "P": groups(OrderedPartition.parcons_partition(ds, sc)), "runs": []}
         n = len(out["U"])
         for bound, aux in ((80, None), (0, None), (1, KwikSortRandom()), (2, BioConsert())):
-            alg = ParCons(auxiliary_algorithm=aux, bound_for_exact=bound)
+            log = []
+            alg = ParCons(auxiliary_algorithm=Recorder(aux if aux is not None else BioConsert(), True, log), bound_for_exact=bound)
+            orig = parcons_module._exact_algorithm_for_sub_problems
+            parcons_module._exact_algorithm_for_sub_problems = lambda: Recorder(orig(), False, log)
             try:
                 cons = alg.compute_consensus_rankings(ds, sc, True)
                 out["runs"].append({"bound": bound, "cons": lst(cons.consensus_rankings[0]), "n_cons": len(cons.consensus_rankings),
-                                    "flag": bool(cons.necessarily_optimal), "weak": groups(cons.features[ConsensusFeature.WEAK_PARTITIONING])})
+                                    "flag": bool(cons.necessarily_optimal), "weak": groups(cons.features[ConsensusFeature.WEAK_PARTITIONING]),
+                                    "calls": log})
             except Exception as e:
                 out["runs"].append({"bound": bound, "err": type(e).__name__ + ": " + str(e)[:80]})
+            finally:
+                parcons_module._exact_algorithm_for_sub_problems = orig
         return out
 
     def term(self, case, out):
@@ -56,9 +83,10 @@ class ParConsSuite(Suite):
         for r in out["runs"]:
             if "err" in r:
                 # an exception where a consensus is due: encoded as an ill-formed run (empty consensus)
-                runs.append(f"(mkPC {nat(r['bound'])} [] false [])")
+                runs.append(f"(mkPC {nat(r['bound'])} [] false [] [])")
             else:
-                runs.append(f"(mkPC {nat(r['bound'])} {ranking_term(r['cons'])} {cbool(r['flag'])} {ranking_term(r['weak'])})")
+                calls = clist([f"(mkCall {cbool(cl['aux'])} {dataset_term(cl['D'])} {ranking_term(cl['res'])})" for cl in r["calls"]])
+                runs.append(f"(mkPC {nat(r['bound'])} {ranking_term(r['cons'])} {cbool(r['flag'])} {ranking_term(r['weak'])} {calls})")
         chk = len(out["U"]) <= MAXOPT[getattr(self, 'tier', 'quick')]
         return (f"(mkC06 {scheme_term(case['s'])} {dataset_term(out['D'])} {natlist(out['U'])} {ranking_term(out['P'])} "
                 f"{clist(runs)} {cbool(chk)})")
@@ -70,6 +98,8 @@ class ParConsSuite(Suite):
         acc[f"n={len(out['U'])}"] = acc.get(f"n={len(out['U'])}", 0) + 1
         acc[f"groups={len(out['P'])}"] = acc.get(f"groups={len(out['P'])}", 0) + 1
         acc["some_run_not_flagged_optimal"] = acc.get("some_run_not_flagged_optimal", 0) + int(any(not r.get("flag", True) for r in out["runs"]))
+        acc["sub_solver_calls:exact"] = acc.get("sub_solver_calls:exact", 0) + sum(1 for r in out["runs"] for cl in r.get("calls", []) if not cl["aux"])
+        acc["sub_solver_calls:aux"] = acc.get("sub_solver_calls:aux", 0) + sum(1 for r in out["runs"] for cl in r.get("calls", []) if cl["aux"])
         acc["exceptions"] = acc.get("exceptions", 0) + int(any("err" in r for r in out["runs"]))
         acc["ranking_missing_a_whole_group"] = acc.get("ranking_missing_a_whole_group", 0) + int(
             any(all(not (set(g) & {e for b in r for e in b}) for r in [rr]) for g in out["P"] for rr in out["D"] if len(out["P"]) > 1))
